@@ -142,7 +142,7 @@ type c09Case struct {
 	UT    int  `json:"ut"`    // unknown transitive attr 250: 0 absent 1 present 2 present with Partial bit
 	UNT   bool `json:"unt"`   // unknown non-transitive attr 251
 	Comm  bool `json:"comm"`  // COMMUNITIES
-	NH    int  `json:"nh"`    // 0 v4 NEXT_HOP 1 v6 MP_REACH 2 NEXT_HOP 0.0.0.0 3 MP_REACH ::
+	NH    int  `json:"nh"`    // 0 v4 NEXT_HOP 1 v6 MP_REACH 2 NEXT_HOP 0.0.0.0 3 MP_REACH :: 4 v6 MP_REACH plus a stray NEXT_HOP
 	Sess  int  `json:"sess"`  // session local address 0 v4 1 v6
 	Chain int  `json:"chain"` // 0 stored path is a root, 1 stored path is a clone with overrides and deletions
 	Wd    bool `json:"wd"`    // stored path is a withdrawal
@@ -281,7 +281,12 @@ func c09PlainAttrs(c c09Case) map[uint8]c09Attr {
 		put(0x40, c09tNH, c09NH4.AsSlice())
 	case 2:
 		put(0x40, c09tNH, []byte{0, 0, 0, 0})
-	case 1, 3:
+	case 1, 3, 4:
+		if c.NH == 4 {
+			// an IPv6 route that also carries a NEXT_HOP attribute (a sender that always includes it; RFC
+			// 4760 3: the receiver ignores it). The next hop that matters is the one in MP_REACH_NLRI.
+			put(0x40, c09tNH, c09NH4.AsSlice())
+		}
 		nh := c09NH6
 		if c.NH == 3 {
 			nh = netip.IPv6Unspecified()
@@ -731,7 +736,7 @@ func c09Build(c c09Case) *c09Stored {
 	add(bgp.NewPathAttributeAsPath(params), false)
 	fam, nlri := bgp.RF_IPv4_UC, c09Nlri4
 	switch c.NH {
-	case 0:
+	case 0, 4:
 		a, _ := bgp.NewPathAttributeNextHop(c09NH4)
 		add(a, false)
 	case 2:
@@ -772,7 +777,7 @@ func c09Build(c c09Case) *c09Stored {
 		add(a, false)
 	}
 	switch c.NH {
-	case 1, 3:
+	case 1, 3, 4:
 		fam, nlri = bgp.RF_IPv6_UC, c09Nlri6
 		nh := c09NH6
 		if c.NH == 3 {
@@ -1245,6 +1250,10 @@ func c09Compare(x c09Ctx, in map[uint8]c09Attr, obs []c09Attr) {
 		inMP, hadMP := in[c09tMPR]
 		gNH, haveNH := got[c09tNH]
 		gMP, haveMP := got[c09tMPR]
+		if c.NH == 4 {
+			// the stray NEXT_HOP of an IPv6 route is not a next-hop carrier: whatever the copy does with it
+			hadNH, haveNH = false, false
+		}
 		unchanged := hadNH == haveNH && hadMP == haveMP && (!hadNH || bytes.Equal(inNH.Val, gNH.Val)) && (!hadMP || bytes.Equal(inMP.Val, gMP.Val))
 		la := c.la()
 		self, why := true, ""
@@ -1516,9 +1525,9 @@ func TestVerif_C09_Attrs(t *testing.T) {
 			shapes = append(shapes, i)
 		}
 	}
-	utVals, nhs := 2, []int{0, 1, 2}
+	utVals, nhs := 2, []int{0, 1, 2, 4}
 	if thorough {
-		utVals, nhs = 3, []int{0, 1, 2, 3}
+		utVals, nhs = 3, []int{0, 1, 2, 3, 4}
 	}
 	sets := c09AttrSets(utVals)
 	// reduced attribute factor for the secondary sweep: nothing, everything (both variants of the RR attributes), and singles
